@@ -14,11 +14,12 @@ def main(p):
     out = dict(calls=0, failures=[], nontrivial=[], samples=[])
     try:
         lib = probelib.Lib(a['package'])
-        client, ch = lib.sync('Auto')
         seam = seams.HttpSeam().install()
-        rclient = lib.rest('Auto')
+        sync_clients = {svc: lib.sync(svc) for svc in sorted({d[2] for d in a['drive']})}
+        rest_clients = {svc: lib.rest(svc) for svc in sync_clients}
     except BaseException as e:
         return dict(import_error=probelib.exc_info(e))
+    Gen = lib.pkg.Req
     tp = a['proto_package']
     Dreq = p.cls(f'.{tp}.Req')
     reply = p.cls(f'.{tp}.Resp')(ok=True)
@@ -69,48 +70,61 @@ def main(p):
                     fail(method, path, f, state, 'caller-value-altered', f'{f}={val!r}, caller gave {e[0]!r}')
 
     drive = a['drive']
-    for method, fields in drive:
+
+    def call_args(form, req):
+        # the caller's three ways of saying the same thing: a dict, a request message, flattened keyword arguments
+        if form == 'dict':
+            return dict(request=dict(req))
+        if form == 'message':
+            return dict(request=Gen(**req))
+        return dict(req)
+
+    FORMS = ('dict', 'message', 'kwargs')
+    for method, fields, svc in drive:
         py = names.py_method(method)
+        client, ch = sync_clients[svc]
+        rclient = rest_clients[svc]
         auto_here = [n for n, _ in fields]
         for fname, state, req, exp in plans(fields):
-            for rep in range(3):
+            for rep, form in enumerate(FORMS):
                 # sync gRPC
                 ch.log.clear(); ch.script = [reply.SerializeToString()]
                 try:
-                    getattr(client, py)(request=dict(req))
+                    getattr(client, py)(**call_args(form, req))
                     out['calls'] += 1
-                    judge(method, 'sync', fname, state, Dreq.FromString(ch.log[0]['raw']), exp, auto_here)
+                    judge(method, 'sync/' + form, fname, state, Dreq.FromString(ch.log[0]['raw']), exp, auto_here)
                 except BaseException as e:
-                    fail(method, 'sync', fname, state, 'exception', probelib.exc_info(e))
+                    fail(method, 'sync/' + form, fname, state, 'exception', probelib.exc_info(e))
                 # REST
                 seam.log.clear(); seam.script = [(200, b'{"ok": true}')]
                 try:
-                    getattr(rclient, py)(request=dict(req))
+                    getattr(rclient, py)(**call_args(form, req))
                     out['calls'] += 1
                     from google.protobuf import json_format
                     sent = json_format.Parse(seam.log[0]['body'] or b'{}', Dreq())
-                    judge(method, 'rest', fname, state, sent, exp, auto_here)
+                    judge(method, 'rest/' + form, fname, state, sent, exp, auto_here)
                 except BaseException as e:
-                    fail(method, 'rest', fname, state, 'exception', probelib.exc_info(e))
+                    fail(method, 'rest/' + form, fname, state, 'exception', probelib.exc_info(e))
             out['nontrivial'] += [f'{method}|sync|{fname}|{state}', f'{method}|rest|{fname}|{state}']
             if len(out['samples']) < 2 and state == 'unset' and ch.log:
                 out['samples'].append(dict(method=method, field=fname, state=state,
                                            sent=probelib.short(Dreq.FromString(ch.log[0]['raw']))))
 
     async def amain():
-        ac, ach = lib.aio('Auto')
-        for method, fields in drive:
+        aclients = {svc: lib.aio(svc) for svc in sync_clients}
+        for method, fields, svc in drive:
             py = names.py_method(method)
+            ac, ach = aclients[svc]
             auto_here = [n for n, _ in fields]
             for fname, state, req, exp in plans(fields):
-                for rep in range(3):
+                for rep, form in enumerate(FORMS):
                     ach.log.clear(); ach.script = [reply.SerializeToString()]
                     try:
-                        await getattr(ac, py)(request=dict(req))
+                        await getattr(ac, py)(**call_args(form, req))
                         out['calls'] += 1
-                        judge(method, 'asyncio', fname, state, Dreq.FromString(ach.log[0]['raw']), exp, auto_here)
+                        judge(method, 'asyncio/' + form, fname, state, Dreq.FromString(ach.log[0]['raw']), exp, auto_here)
                     except BaseException as e:
-                        fail(method, 'asyncio', fname, state, 'exception', probelib.exc_info(e))
+                        fail(method, 'asyncio/' + form, fname, state, 'exception', probelib.exc_info(e))
                 out['nontrivial'].append(f'{method}|asyncio|{fname}|{state}')
     asyncio.run(amain())
     return out
